@@ -175,6 +175,10 @@ def run(case, ctx):
                 if n == "quantise":
                     if op["a"] % 3 == 0:
                         s.quantise()
+                    elif op["a"] % 7 == 1:
+                        # a fine grid: more than sixteen step sizes (normal, triplet, dotted, odd subdivisions)
+                        LOG.n("c11.long_step_list")
+                        s.quantise([96, 48, 24, 12, 6, 3, 32, 16, 8, 4, 2, 36, 18, 9, 72, 20, 10, 5, 28, 14, 7][:17 + op["k"] % 5])
                     else:
                         # step sizes as the documented helpers generate them (tick values themselves: "an array of note
                         # values in ticks"), for every bound the helpers accept
